@@ -41,6 +41,8 @@ def programs(t):
                     ev('RealFaultAddressInternal', 0, (0x1000 * t, (3 << 8) | 2, 5, pid), t), ev('MACH_vmfault', 2, (0, 0, 0, 2), t)],
         'launch': [ev('DBG_DYLD_TIMING_LAUNCH_EXECUTABLE', 1, (0, 0x4000 + t, 0, 0), t), ev('DYLD_uuid_map_a', 0, (t, t, 0x1000 * t, 3), t),
                    ev('DBG_DYLD_TIMING_LAUNCH_EXECUTABLE', 2, (0, 0, 0, 0), t)],
+        # announces a child whose thread id is the id of another participating thread (ids are recycled / the child is already running)
+        'newthread-of-sibling': [ev('TRACE_DATA_NEWTHREAD', 0, (t % 3 + 1, pid + 5, 0, 0), t), ev('TRACE_STRING_NEWTHREAD', 0, tid=t, data=S(nm + b'c'))],
         'exec+rename': [ev('TRACE_DATA_EXEC', 0, (pid + 2, 0, 0, 0), t), ev('BSC_getpid', 1, tid=t), ev('TRACE_STRING_EXEC', 0, tid=t, data=S(nm + b'y')),
                         ev('BSC_getpid', 2, (0, pid, 0, 0), t)],
     }
@@ -111,16 +113,16 @@ def judge(combo, schedule, trunc):
 class C05(Check):
     pid = 'C05'
     level = 'model_checking'
-    rule = ('schedules: for every ordered pair (and, per tier, triple) of per-thread programs from a library of 11 (syscall with '
+    rule = ('schedules: for every ordered pair (and, per tier, triple) of per-thread programs from a library of 12 (syscall with '
             'lookup, NEWTHREAD data+string, EXEC data+string, nested syscalls, thread name + terminate, sampler window, global '
             'string + dlopen, 3-record lookup inside stat64, page fault with nested record, launch with nested map, EXEC pair with '
-            'an unrelated syscall in between), each parameterised by its own tid/pid/names, EVERY interleaving (merge preserving '
+            'an unrelated syscall in between, NEWTHREAD pair announcing a sibling participant\'s thread id), each parameterised by its own tid/pid/names, EVERY interleaving (merge preserving '
             'each program\'s order) is fed to a fresh TracesParser. quick: all pairs (full programs) + all triples of programs '
             'truncated to 2 events; thorough: all pairs and all triples of full programs. Oracle: per-thread list of (trace type, '
             'text, window) equals the solo run of that thread\'s program; learned tables equal the union of the solo runs. '
             'states = distinct program combinations; transitions = feeds; non-trivial = schedule with at least one context switch '
             'inside a program (not a concatenation).')
-    assumptions = ('programs use only decoders whose text depends on the thread\'s own records (the statement\'s caveat)',
+    assumptions = ('programs use only decoders whose text depends on the thread\'s own records (the statement\'s caveat); the one exception, thread-terminate (shows the pid another thread may have declared), is never combined with the program that declares a sibling\'s thread id',
                    'there are no real threads in the library: the explorer is the scheduler because it decides the order in which '
                    'feed() sees the events')
 
@@ -137,6 +139,10 @@ class C05(Check):
     def run_shard(self, desc, acc):
         _, combos, trunc = desc
         for combo in combos:
+            if 'newthread-of-sibling' in combo and 'threadname+terminate' in combo:
+                # the statement's caveat: thread-terminate renders the pid from the table another thread's NEWTHREAD record
+                # writes (by design); these two programs are not combined
+                continue
             lens = [len(programs(i + 1)[n][:trunc]) for i, n in enumerate(combo)]
             for sched in interleavings(lens):
                 bad = judge(combo, sched, trunc)
